@@ -137,6 +137,20 @@ where
     }
 }
 
+#[cfg(feature = "verif-hooks")]
+impl<R> AsyncDispatcher<'_, R> {
+    /// Verification hook, read-only: the shape of the executed plan and the
+    /// number of thread-local systems. Like every accessor of this type it
+    /// first takes the state back from a dispatch in flight.
+    pub fn verif_shape(&mut self) -> (Vec<Vec<usize>>, usize) {
+        let inner = self.data.inner();
+        (
+            inner.stages.iter().map(Stage::verif_group_sizes).collect(),
+            self.thread_local.len(),
+        )
+    }
+}
+
 enum Data<R> {
     Inner(Inner<R>),
     Rx(mpsc::Receiver<Inner<R>>),
